@@ -283,6 +283,7 @@ func parseRaces(logs []string) map[string]string {
 }
 
 func main() {
+	explore.BeforeExec = []func(){cdi.VerifResetGlobals}
 	for i, a := range os.Args {
 		if a == "-worker" {
 			debug.SetGCPercent(800)
@@ -312,8 +313,8 @@ func main() {
 						continue
 					}
 					p := preempt
-					if sn.Kind == "pair" && !thorough {
-						p = 2
+					if sn.Kind == "pair" {
+						p = preempt - 1 // the pair matrix is wide (105 pairs x 2 modes): one preemption less than the switch scenarios
 					}
 					res := explore.Explore(scenario(sn, eager, p), time.Unix(dl, 0))
 					_ = enc.Encode(workerOut{Scenario: sn, Eager: eager, Executions: res.Executions, Points: res.Points, Outcomes: res.Outcomes, Violations: res.Violations, Capped: res.Capped, Infra: res.Infra})
@@ -424,6 +425,18 @@ func main() {
 	if ee, ok := err.(*exec.ExitError); ok && ee.ExitCode() == 66 {
 		err = nil // the race detector's own exit status when it reported races: the log is parsed below
 	}
+	if ee, ok := err.(*exec.ExitError); ok && ee.ExitCode() == 3 && strings.Contains(raceOut.String(), "HANG ") {
+		// two operations never returned on the unmodified build: a real deadlock
+		out := raceOut.String()
+		line := out[strings.Index(out, "HANG "):]
+		pair := strings.SplitN(line, "\n", 2)[0]
+		stacks := line
+		if len(stacks) > 6000 {
+			stacks = stacks[:6000]
+		}
+		r.Fail(&hx.Failure{Sig: "deadlock:free-running:" + strings.TrimPrefix(strings.Split(pair, " (auto")[0], "HANG "), Msg: "on the unmodified build these concurrent operations did not return within 20 s: " + pair, Case: map[string]any{"goroutines": stacks}})
+		err = nil
+	}
 	if err != nil {
 		fmt.Println("INFRA: race-detector pass failed:", err, raceOut.String())
 		os.RemoveAll(scratch)
@@ -450,7 +463,7 @@ func main() {
 		names = append(names, o.Name)
 	}
 	r.Rule = fmt.Sprintf("schedule exploration: every pair of %v as two controlled threads (plus watcher goroutine and fsnotify reader in automatic mode), in manual and automatic refresh mode, and the switch scenarios {query x2 || atomic rename switch A->B (+Refresh)} incl. a three-thread variant; "+
-		"every schedule with <=2 (thorough 3) preemptions under a lazy and (automatic mode) an eager default order; evaluations = complete executions + free-running race-detector runs; states/transitions = choice points. "+
+		"every schedule with <=2 (thorough 3) preemptions for the switch scenarios and <=1 (2) for the pair matrix, under a lazy and (automatic mode) an eager default order; evaluations = complete executions + free-running race-detector runs; states/transitions = choice points. "+
 		"Oracle: no deadlock, no panic, every query/injection equals state A or state B entirely (unchanging files in both directories make a half-built index distinguishable), the cache serves B once everything has settled, manual-mode histories are linearizable w.r.t. (directory, cache) (porcupine). "+
 		"Race freedom: the same operation bodies run free under the Go race detector on the unmodified build. non-trivial = every execution", names)
 	r.Assumptions = []string{"data races are detected by a separate free-running pass (sampling), not by the exhaustive exploration", "read-only file-system calls are not scheduling points in this check",
